@@ -261,8 +261,11 @@ def evaluate(recipe, opt, path, solved=None):
         if not net.converged:
             out.status, out.skipped = "skipped", "not-converged"
             return out
-        # solution of the original in ppc numbering (in-service ppc buses first, incl. auxiliary buses): columns VM, VA
-        net["_c21_solution"] = net._ppc["bus"][:, [7, 8]].copy()
+        # solution of the original in the numbering of the internal ppc (incl. auxiliary buses): columns VM, VA
+        try:
+            net["_c21_solution"] = (net._ppc["internal"]["bus"][:, [7, 8]].copy(), net._pd2ppc_lookups["bus"].copy())
+        except (KeyError, TypeError, IndexError):
+            net["_c21_solution"] = None      # no internal solution kept (e.g. a single-bus network): no second start
     out.net = net
     out.feats = features(net)
     cls = "+".join(sorted(out.feats)) or "plain"
@@ -298,12 +301,15 @@ def evaluate(recipe, opt, path, solved=None):
             shutil.rmtree(tmp, ignore_errors=True)
     out.n_ppci = shapes["bus"]
     out.gclasses = g_classes(ppc if path == "ppc" else mpc["mpc"])
-    sol = net["_c21_solution"][:out.n_ppci]
+    import numpy as np
+    sol, lookup_run = net["_c21_solution"] if net["_c21_solution"] is not None else (np.zeros((0, 2)), None)
+    same_numbering = lookup_run is not None and len(sol) == out.n_ppci == len(net2.bus) and list(net2.bus.index) == list(range(out.n_ppci)) and \
+        np.array_equal(lookup_run, lookup) and not np.isnan(sol).any()
     first = None
     for start in (None, (sol[:, 0], sol[:, 1])):
         # a flat start may reach another solution of the same equations (seen: ~0 p.u. at the auxiliary bus behind an open
         # transformer switch) -> before a difference counts, the converted net is started from the original's operating point
-        if start is not None and (len(sol) != len(net2.bus) or list(net2.bus.index) != list(range(out.n_ppci))):
+        if start is not None and not same_numbering:
             break
         try:
             run_conv(net2, sn, start)
